@@ -706,8 +706,9 @@ def _process_dep_declarations(content: bytes, type: RenderType) -> Tuple[bytes, 
     return (content, final_script_tags.encode("utf-8"), final_css_tags.encode("utf-8"))
 
 
-href_pattern = re.compile(r'href="([^"]+)"')
-src_pattern = re.compile(r'src="([^"]+)"')
+# NOTE: The attribute name must not be the tail of another attribute name (`data-src="..."`, `data-href="..."`).
+href_pattern = re.compile(r'(?<![\w-])href="([^"]+)"')
+src_pattern = re.compile(r'(?<![\w-])src="([^"]+)"')
 
 
 # Detect duplicates by URLs, extract URLs, and sort by URLs
